@@ -17,6 +17,7 @@ def dispatch (toks : List String) : String :=
   | "C02" :: rest => Poor.Drv.Route.handle rest
   | "C19" :: rest => Poor.Drv.Route.handle rest
   | "RE" :: rest => Poor.Drv.Route.handleRe rest
+  | "C18" :: rest => Poor.Drv.HeaderValue.handle rest
   | _ => "bad-op"
 
 partial def loop (h : IO.FS.Stream) (out : IO.FS.Stream) : IO Unit := do
